@@ -40,6 +40,18 @@ W_PRELUDE = (
 )
 
 VARIANTS = ("func", "method", "smethod", "cmethod", "module")
+# class variant "class:<host kind>": class K with four methods whose bodies are the same text
+CLASS_METHODS = (("f", "method"), ("s", "smethod"), ("k", "cmethod"), ("m", "method"))
+CLASS_DRIVER = (
+    "for _call in (lambda: K().f(c1, c2%(args)s), lambda: K.s(c1, c2%(args)s),\n"
+    "              lambda: K.k(c1, c2%(args)s), lambda: K().m(c1, c2%(args)s)):\n"
+    "    if '_wc' in globals():\n"
+    "        _wc.clear()\n"
+    "    try:\n"
+    "        print('RET', _call())\n"
+    "    except NameError:\n"
+    "        print('EXC NameError')\n"
+)
 
 
 # ------------------------------------------------------------------ rendering
@@ -91,6 +103,8 @@ def line_text(l):
         return "for _ in (1, 2):", spans
     if k == "whl":
         return "while _w(%d, %s):" % (n, l["c"]), spans
+    if k == "rtn":
+        return "return", spans
     if k == "brk":
         return "break", spans
     if k == "cnt":
@@ -130,6 +144,8 @@ def render(lines, init, variant):
             out.append("%s = %s\n" % (v, INITVAL[v]))
         base = 0
         driver = "print('RET', None)\n"
+    elif variant.startswith("class:"):
+        return render_class(lines, out, params, args, variant.split(":")[1])
     else:
         raise ValueError(variant)
     pos = sum(len(x) for x in out)
@@ -144,6 +160,33 @@ def render(lines, init, variant):
         out.append(ind + text + "\n")
         pos += len(ind) + len(text) + 1
     return {"src": "".join(out), "driver": driver, "span": span, "sub": sub, "inputs": inputs}
+
+
+def render_class(lines, out, params, args, hostkind):
+    """class K with a normal, a static, a class and a second normal method, all with the same body;
+    spans are those of the first method of kind hostkind"""
+    out.append("class K:\n")
+    span, sub = {}, {}
+    host = [n for n, k in CLASS_METHODS if k == hostkind][0]
+    for name, kind in CLASS_METHODS:
+        if kind == "smethod":
+            out.append("    @staticmethod\n    def %s(c1, c2%s):\n" % (name, params))
+        elif kind == "cmethod":
+            out.append("    @classmethod\n    def %s(cls, c1, c2%s):\n" % (name, params))
+        else:
+            out.append("    def %s(self, c1, c2%s):\n" % (name, params))
+        pos = sum(len(x) for x in out)
+        for idx, l in enumerate(lines, 1):
+            ind = "    " * (2 + l["d"])
+            text, spans = line_text(l)
+            if name == host:
+                span[idx] = (pos, pos + len(ind) + len(text))
+                for key, (s, e) in spans.items():
+                    sub[(idx, key)] = (pos + len(ind) + s, pos + len(ind) + e)
+            out.append(ind + text + "\n")
+            pos += len(ind) + len(text) + 1
+        out.append("\n")
+    return {"src": "".join(out), "driver": CLASS_DRIVER % {"args": args}, "span": span, "sub": sub, "inputs": {}}
 
 
 def norm_exc(name):
@@ -164,12 +207,15 @@ def run_all(src, driver, inputs=None):
     return res
 
 
-def expected_runs(rec):
-    """the spec's prediction, as text"""
+def expected_runs(rec, klass=False):
+    """the spec's prediction, as text (class variant: every method of K is called and behaves like the body)"""
     res = []
     for run in rec["runs"]:
         out = "".join(pyrepr(v) + "\n" for v in run["out"])
-        if run["exc"]:
+        if klass:
+            out += "EXC NameError\n" if run["exc"] else "RET %s\n" % (pyrepr(run["rv"]) if run["rv"] else "None")
+            res.append([out * len(CLASS_METHODS), None])
+        elif run["exc"]:
             res.append([out, "NameError"])
         else:
             out += "RET %s\n" % (pyrepr(run["rv"]) if run["rv"] else "None")
@@ -189,7 +235,7 @@ def requests_for(rec, rnd, tier):
     """Concrete rope requests for one exported body: every line range of class
     ok / struct in the plain function variant with default options, seeded
     picks of the other variants and options, and expression requests."""
-    has_ret = any(l["k"] == "ret" for l in rec["lines"])
+    has_ret = any(l["k"] in ("ret", "rtn") for l in rec["lines"])
     variants = [v for v in VARIANTS if not (v == "module" and has_ret)]
     reqs = []
     dense = tier == "thorough"
@@ -221,6 +267,15 @@ def requests_for(rec, rnd, tier):
             if is_global_classmethod(q) and rnd.random() >= 0.04:
                 continue      # feature pass: a thin sample only
             reqs.append(q)
+    # the same statements in sibling methods of every kind: similar=True must only touch siblings
+    # where the call is valid (spec: SiblingSound); one or two ranges per body, every host kind in turn
+    ok = [r for r in rec["regions"] if r["cls"] == "ok"]
+    rnd.shuffle(ok)
+    for r in ok[:(3 if dense else 1)]:
+        for hk in rnd.sample(["method", "smethod", "cmethod"], 3 if dense else 2):
+            reqs.append({"what": "stmts", "i": r["i"], "j": r["j"], "cls": "ok", "params": sorted(r["params"]),
+                         "results": sorted(r["results"]), "written": sorted(r["written"]), "shapes": r["shapes"],
+                         "variant": "class:" + hk, "global_": False, "similar": rnd.random() < 0.85, "kind": None})
     # expression requests.  A bare name with similar=True is left out (see notes).
     exprs = [e for e in rec["exprs"] if e["cls"] != "unbound" and not (e["sim"] and e["sub"] == "name")]
     rnd.shuffle(exprs)
@@ -319,6 +374,10 @@ def atoms_of(o):
     for k in out:
         if k not in uniq:
             uniq.append(k)
+    if not uniq and q["variant"].startswith("class:"):
+        base["scope"] = "class"        # nothing left out: the siblings are what differs
+        base["host"] = q["variant"].split(":")[1]
+        base["similar"] = q["similar"]
     return uniq or [base]
 
 
@@ -339,6 +398,7 @@ def replay_program(item):
 
     rec, reqs = item["rec"], item["reqs"]
     exp = expected_runs(rec)
+    exp_class = expected_runs(rec, klass=True)
     root = common.scratch("c03_")
     results = []
     rendered = {}
@@ -350,12 +410,12 @@ def replay_program(item):
                 if v not in rendered:
                     rd = render(rec["lines"], rec["init"], v)
                     before = run_all(rd["src"], rd["driver"], rd["inputs"])
-                    want = exp if v != "module" else exp
+                    want = exp_class if v.startswith("class:") else exp
                     if before != want:
                         return {"machinery": "spec and CPython disagree on the rendered program (%s)" % v,
                                 "item": {"src": rd["src"], "spec": want, "cpython": before, "rec": rec}}
                     rd["before"] = before
-                    rd["file"] = "m_%s.py" % v
+                    rd["file"] = "m_%s.py" % v.replace(":", "_")
                     # one file per variant, written before rope first sees it
                     with open(os.path.join(root, rd["file"]), "w") as f:
                         f.write(rd["src"])
@@ -408,12 +468,14 @@ def replay_program(item):
 
 
 # ------------------------------------------------------------------ TLC runs
-INVARIANTS = ["TypeOK", "WellFormed", "ExtractSound", "CallArgsBound", "ExprSound", "DefiniteAssignmentSound"]
+INVARIANTS = ["TypeOK", "WellFormed", "ExtractSound", "CallArgsBound", "ExprSound", "DefiniteAssignmentSound",
+              "SiblingSound"]
 
 
 def base_constants(**over):
     c = {"MaxLines": 3, "MaxDepth": 2, "Kinds": tlc.Sub("MCKindsAll"), "InitSets": tlc.Sub("MCInitTwo"),
-         "StmtOn": True, "ExprOn": True, "BackEdges": True, "RequireDA": True, "ExportMin": 1}
+         "StmtOn": True, "ExprOn": True, "BackEdges": True, "RequireDA": True, "ExportMin": 1,
+         "ClassOn": False, "RewriteAll": False, "CheckStale": True}
     c.update(over)
     return c
 
@@ -455,47 +517,52 @@ def main(tier):
 
     # 1. exhaustive: every body of <= 3 lines over the full alphabet
     if quick:
-        runs = [("bfs3-stmts", base_constants(MaxLines=3, ExprOn=False, InitSets=tlc.Sub("MCInitTwo"))),
-                ("bfs2-exprs", base_constants(MaxLines=2, StmtOn=False, InitSets=tlc.Sub("MCInitTwo")))]
+        # model only: the bodies that are replayed in the quick tier come from the simulation below
+        runs = [("bfs3-stmts-model-only", base_constants(MaxLines=3, ExprOn=False, InitSets=tlc.Sub("MCInitTwo"))),
+                ("bfs2-exprs-model-only", base_constants(MaxLines=2, StmtOn=False, ClassOn=True,
+                                                         InitSets=tlc.Sub("MCInitTwo")))]
     else:
         # the 4-line run checks the oracle only (no export: too many bodies to replay)
-        runs = [("bfs3", base_constants(MaxLines=3, InitSets=tlc.Sub("MCInitAll"))),
+        runs = [("bfs3", base_constants(MaxLines=3, ClassOn=True, InitSets=tlc.Sub("MCInitAll"))),
                 ("bfs4-core-model-only", base_constants(MaxLines=4, ExprOn=False, Kinds=tlc.Sub("MCKindsCore"),
                                                         InitSets=tlc.Sub("MCInitOne")))]
     if os.environ.get("VERIF_C03_SKIP_BFS4"):      # development knob: the 4-line run does not depend on the seed
         runs = [r for r in runs if not r[0].startswith("bfs4")]
     for tag, c in runs:
-        res = run_tlc(tag, c, progs_bfs, coverage=(tag == "bfs2-exprs"), export=not tag.endswith("model-only"))
+        res = run_tlc(tag, c, progs_bfs, export=not tag.endswith("model-only"))
         tlc_runs[tag] = res.summary()
         if not res.ok:
             return tlc_failed(res, tag)
         states += res.distinct
         transitions += res.generated
-        if res.coverage:
-            for a in ("AddLine", "ExtractExpr"):
-                if a in res.coverage and res.coverage[a][1] == 0:
-                    verdict.machinery_failure("action %s never taken in %s" % (a, tag))
 
     # 2. random simulation of bodies of 4..MaxLines lines (invariants checked on every state)
     scale = float(os.environ.get("VERIF_C03_SCALE", "1"))     # only used to enumerate finding classes
     nlines = 6 if quick else 7
-    num = int((70 if quick else 450) * scale)          # traces per TLC worker
-    res = run_tlc("sim", base_constants(MaxLines=nlines, ExportMin=4), progs_sim,
+    num = int((110 if quick else 450) * scale)         # traces per TLC worker
+    res = run_tlc("sim", base_constants(MaxLines=nlines, ExportMin=(2 if quick else 4), ClassOn=True), progs_sim,
                   simulate={"num": num}, depth=nlines + 2, seed=common.SEED + 1)
     tlc_runs["sim"] = res.summary()
     if not res.ok:
         return tlc_failed(res, "sim")
     transitions += res.generated
 
-    # 3. the oracle is not vacuous: without loop back edges, or without the
-    #    definitely-assigned condition, TLC must find a counterexample
+    # 3. the oracle is not vacuous (and every extraction action is taken): without loop back edges, without
+    #    the definitely-assigned condition, when every sibling is rewritten, when a stale single definition
+    #    is allowed, TLC must find a counterexample of the corresponding invariant
     sens = {}
-    for name, over in (("no-back-edges", {"BackEdges": False}), ("no-definite-assignment", {"RequireDA": False})):
-        c = base_constants(MaxLines=3, ExprOn=False, InitSets=tlc.Sub("MCInitAll"), **over)
-        r2 = run_tlc(name, c, {}, invariants=["ExtractSound"], export=False)
+    for name, inv, over in (("no-back-edges", "ExtractSound", {"BackEdges": False}),
+                            ("no-definite-assignment", "ExtractSound", {"RequireDA": False}),
+                            ("rewrite-all-siblings", "SiblingSound",
+                             {"RewriteAll": True, "ClassOn": True, "StmtOn": False, "MaxLines": 2}),
+                            ("stale-definition-allowed", "ExprSound",
+                             {"CheckStale": False, "ExprOn": True, "StmtOn": False, "InitSets": tlc.Sub("MCInitBoth"),
+                              "Kinds": tlc.Sub("MCKindsCore")})):
+        c = base_constants(**dict(dict(MaxLines=3, ExprOn=False, InitSets=tlc.Sub("MCInitAll")), **over))
+        r2 = run_tlc(name, c, {}, invariants=[inv], export=False)
         sens[name] = r2.violated
-        if r2.violated != "ExtractSound":
-            verdict.machinery_failure("model insensitive: ExtractSound holds with %s" % name)
+        if r2.violated != inv:
+            verdict.machinery_failure("model insensitive: %s holds with %s" % (inv, name))
 
     # 4. replay
     rnd = common.rng("c03")
@@ -505,7 +572,7 @@ def main(tier):
     rnd.shuffle(sim_keys)
     if quick:
         bfs_keys = bfs_keys[:int(1500 * scale)]
-        sim_keys = sim_keys[:int(1400 * scale)]
+        sim_keys = sim_keys[:int(2600 * scale)]
     else:
         bfs_keys = bfs_keys[:int(12000 * scale)]
         sim_keys = sim_keys[:int(8000 * scale)]
